@@ -12,7 +12,9 @@ RULE = ("structures: (a) PLANTED pairs — for element pairs of the radii table 
         "through a face, an edge and a corner image, on orthorhombic / triclinic(±tilt) / arbitrarily oriented cells whose "
         "perpendicular widths are between 1.02x and 3x the largest cutoff in use, and without a cell; (b) random clusters "
         "of 2–12 atoms grown at 0.5–1.6x the cutoff from earlier atoms, wrapped into the cell; (c) dyadic fractional "
-        "coordinates (k/64) in tight cells; (d) 0/1-atom structures and unknown elements (tie only). Every case is also "
+        "coordinates (k/64) in tight cells; (d) 0/1-atom structures and unknown elements (tie only). (e) strongly skewed in-domain cells "
+        "(tilt 1–3 edges); (f) scan_min tie: the minimum over the 27 scanned images, model vs uc_neighbor_offsets+cdist of the "
+        "real code, on structure pairs and on small narrow / mildly tilted / strongly skewed cells. Every case is also "
         "shifted by a random vector + wrapped back, and permuted, on the real code. Non-trivial = distinct unambiguous structure with "
         "at least one bond that exists only through a periodic image (not at the direct distance), or — without a cell — a "
         "pair within 1e-3 (relative) of its cutoff. max_bond_length: all ordered pairs of table elements.")
@@ -186,6 +188,11 @@ def make_cell(rng, kind, cmax, tight=None):
         s = 1 if kind == "tri+" else -1
         t = lambda x: s * rng.randint(1, 8) / 16 * x
         m = [[a, 0, 0], [t(a), b, 0], [t(a), rng.choice([1, -1]) * t(b), c]]
+    elif kind == "skew":  # strongly tilted (tilt factors of 1–3 edges): the NEAREST image can lie outside the 27
+        t = lambda x: rng.choice([1, -1]) * rng.randint(16, 48) / 16 * x
+        m = [[a, 0, 0], [t(a), b, 0], [t(a) if rng.random() < 0.5 else 0, t(b) if rng.random() < 0.5 else 0, c]]
+        if rng.random() < 0.5:
+            rng.shuffle(m)
     else:  # "rot": sheared and permuted, no zero pattern
         e = lambda: rng.randint(-8, 8) / 16 * cmax
         m = [[a, e(), e()], [e(), b, e()], [e(), e(), c]]
@@ -391,7 +398,58 @@ def cases(ctx):
         e.insert(rng.randint(0, len(e)), rng.choice(["Xx", "Q", "c", ""]))
         P = [np.array([rng.randint(1, 63) / 64 for _ in range(3)]) @ cell for _ in e]
         out.append(build(rng, e, P, rng.choice([None, cell]), "unknown-element"))
+    # strongly skewed cells inside the property's domain (widths >= cutoffs; appended last so that the earlier stream
+    # of cases is unchanged): the nearest image of a far pair may be outside the 27, bonded pairs never are
+    for (a, b) in rng.sample(pairs, min(len(pairs), ctx.n(40, 400))):
+        for mode in range(4):
+            out.append(planted(rng, a, b, mode, rng.choice([-1, 1]) * 1e-4, "skew", extra=rng.random() < 0.25))
+    for _ in range(ctx.n(20, 200)):
+        out.append(cluster(rng, "skew", ctx.n(6, 9)))
     return [c for c in out if c is not None], out.count(None)
+
+
+_GRID13 = np.array(list(itertools.product(range(-6, 7), repeat=3)), dtype=float)
+
+
+def real_scan_min(p, q, cell):
+    """the smallest squared distance among the images the REAL code scans: atom1 + uc_neighbor_offsets(cell) vs atom2"""
+    def f():
+        from mofun import uc_neighbor_offsets
+        from scipy.spatial import distance
+        offs = uc_neighbor_offsets(np.array(cell, dtype=float))
+        ss = distance.cdist(np.array(p, dtype=float) + offs, [q], "euclidean")
+        return [len(offs), float(ss.min()) ** 2]
+    return core.result_of(f)
+
+
+def scan_cases(ctx, structs):
+    """(p, q, cell) triples for the `scan_min` tie: pairs taken from the generated structures, plus small cells of three
+    shapes — orthorhombic and NARROWER than a bond (scanReduced, outside the width guard), mildly tilted, strongly
+    skewed (outside both guards)"""
+    rng = ctx.rng
+    out = []
+    withcell = [c for c in structs if c["cell"] is not None and len(c["elems"]) >= 2]
+    for c in rng.sample(withcell, min(len(withcell), ctx.n(120, 1500))):
+        out.append((c["pos"][0], c["pos"][1], c["cell"], "structure"))
+    for _ in range(ctx.n(180, 2500)):
+        shape = rng.choice(["narrow-ortho", "mild", "skewed"])
+        d = lambda: rng.randint(8, 96) / 16
+        a, b, c = d(), d(), d()
+        if shape == "narrow-ortho":
+            m = [[a, 0, 0], [0, b, 0], [0, 0, c]]
+        elif shape == "mild":
+            t = lambda x: rng.randint(-6, 6) / 16 * x
+            m = [[a, 0, 0], [t(a), b, 0], [0 if rng.random() < 0.5 else t(a), 0, c]]
+        else:
+            t = lambda x: rng.randint(-64, 64) / 16 * x
+            m = [[a, 0, 0], [t(a), b, 0], [t(a), t(b), c]]
+        if rng.random() < 0.3:
+            rng.shuffle(m)
+        m = np.array(m, dtype=float)
+        f1, f2 = [np.array([rng.randint(0, 63) / 64 for _ in range(3)]) for _ in range(2)]
+        out.append(([core.q(float(v)) for v in f1 @ m], [core.q(float(v)) for v in f2 @ m],
+                    [[core.q(float(v)) for v in row] for row in m], shape))
+    return out
 
 
 def witness_for_cutoff(ctx, e1, e2, got, want):
@@ -451,6 +509,26 @@ def run(ctx, oracle_only=False):
     ctx.count("max_bond_length pairs", len(mops))
     if oracle_only:
         return
+    # the scanned minimum: model (scanMinDist2 over ucOffsets) vs the images the real code builds
+    sc = scan_cases(ctx, cs)
+    sops = [{"op": "scan_min", "p": p, "q": q, "cell": cell, "shape": shape} for p, q, cell, shape in sc]
+    smodels = ctx.lean.run(sops)
+    for o, m in zip(sops, smodels):
+        pf, qf = [fl(v) for v in o["p"]], [fl(v) for v in o["q"]]
+        cf = [[fl(v) for v in row] for row in o["cell"]]
+        r = real_scan_min(pf, qf, cf)
+        ctx.count("scan_min:" + o["shape"] + ("/reduced" if m.get("reduced") else "/not-reduced"))
+        if "ok" not in r or "scanmin" not in m:
+            ctx.disagree("scan_min", o, r, m, "scan_min failed on one side")
+            continue
+        nimg, real2 = r["ok"]
+        ctx.compare("scan_min", o, {"images": nimg, "q": core.q(real2)}, {"images": 27, "q": m["scanmin"]})
+        if m["reduced"] and m["inside"]:
+            # theorem scan_contains_minimiser_reduced, numerically: the scanned minimum is the minimum over a 13^3 block
+            d = np.array(pf) + _GRID13 @ np.array(cf) - np.array(qf)
+            brute = float((d * d).sum(axis=1).min())
+            if not core.close(core.q(brute), m["scanmin"], 1e-9):
+                ctx.disagree("scan_min", o, brute, m, "scanReduced cell: the 27 images do not contain the nearest image of a 13^3 block")
     models = ctx.lean.run(ops + mops)
     for inp, r, m in zip(ops, impls, models[:len(ops)]):
         if "bad" in m:
